@@ -5,6 +5,7 @@ import time
 from hypothesis import strategies as st
 
 from harness import common, gen, monitors
+from harness.common import viol
 from harness.programs import run_program
 
 PID = 'C07'
@@ -20,7 +21,8 @@ RULE = ('(1) Exhaustive: for each stream-carrying model (request-response, strea
         'elements, then at most one terminal signal (on_complete | on_error | element flagged complete) and nothing '
         'after it; every request-response awaitable has exactly one outcome and no second resolution was attempted (no '
         'InvalidStateError in the loop handler or as an ERROR frame); after a connection event or a terminal frame the '
-        'awaitable is done. Non-trivial = the sequence has a terminal event followed by a further event on that '
+        'awaitable is done. (3) The C17 reconnect histories: every request-response awaitable of the run has exactly one '
+        'outcome at the end, whichever connection it was issued on or between. Non-trivial = the sequence has a terminal event followed by a further event on that '
         'stream; distinct = distinct sequence / program hash.')
 ASSUMPTIONS = ['raw peer frames are encoded with the reference codec', 'recording subscribers never act after a terminal signal']
 
@@ -239,6 +241,28 @@ def prop(program):
     return vs
 
 
+def reconnect_prop(wrapped):
+    """C17's reconnect histories under C07's rule: every request-response awaitable of the run - pending when a connection
+    ended, issued while the reconnect was in progress (also while the old transport was still closing), or a probe on the new
+    connection - has exactly one outcome at the end, and no subscriber is signalled twice."""
+    from harness.checks import c17
+    case = wrapped['reconnect']
+    prog, plan = c17.build(case)
+    tr = run_program(prog)
+    vs = monitors.mon_terminal_once(tr, PID)
+    for uid in tr.scn.started:
+        st_ = tr.scn.st[uid]
+        if st_['spec']['k'] != 'rr' or st_.get('issue_raised'):
+            continue
+        outcomes = [e['ev'] for e in tr.world.log if e.get('uid') == uid and e['ev'] in ('rr_result', 'rr_error', 'rr_cancelled')]
+        if len(outcomes) != 1:
+            vs.append(viol('request_response_outcomes', '%s:outcomes_%d:rr:reconnect' % (PID, min(len(outcomes), 2)), uid=uid,
+                           outcomes=outcomes, endings=[e['kind'] for e in case['endings']], mode=case['mode']))
+    info['nt'] = any(e['during'] or e['pending'] for e in case['endings'])
+    info['classes'] = ['part=reconnect', 'reconnects=%d' % len(case['endings'])]
+    return vs
+
+
 def classify(case, vs):
     return info.get('nt', False), info.get('classes', ()), None
 
@@ -252,7 +276,7 @@ REGRESSION = [
 ]
 
 
-def hyp_shard(tier, seed, n):
+def hyp_shard(tier, seed, n, reconnect=False):
     common.use_repo()
     stats = common.Stats()
     known = common.Known(PID)
@@ -263,6 +287,11 @@ def hyp_shard(tier, seed, n):
             stats.case(p, True, ['regression'])
             for v in common.judge(stats, known, p, vs):
                 stats.violations.append((v, p))
+        return stats
+    if reconnect:
+        from harness.checks import c17
+        common.hyp_search(stats, known, c17.cases().map(lambda c: {'reconnect': c}), reconnect_prop, n, seed, classify=classify,
+                          shrink=True)
         return stats
     common.hyp_search(stats, known, random_programs(), prop, n, seed, classify=classify, shrink=True)
     return stats
@@ -285,6 +314,8 @@ def run(tier, seed):
     nh = 800 if tier == 'quick' else 40000
     for s in common.shard_seeds(seed, 8):
         jobs.append(('hyp_shard', dict(tier=tier, seed=s, n=nh // 8)))
+    for s in common.shard_seeds(seed, 4):
+        jobs.append(('hyp_shard', dict(tier=tier, seed=s + 3, n=(400 if tier == 'quick' else 8000) // 4, reconnect=True)))
     stats = common.run_shards_multi(__name__, jobs)
     stats.exhaustive = None
     stats.extra['exhaustive_depth'] = {'channel': depth, 'request-response and stream': depth + 1}
@@ -296,4 +327,6 @@ def replay(path):
     case = common.load_replay(path)
     if 'enum' in case:
         return common.report_replay(PID, path, monitors.mon_terminal_once(run_program(case), PID))
+    if 'reconnect' in case:
+        return common.report_replay(PID, path, reconnect_prop(case))
     return common.report_replay(PID, path, prop(case))
